@@ -363,17 +363,40 @@ theorem generate_eq_expansion (r : PState) (nameT ttlT clsT tyT rdT rest : List 
       (fun x => evEntry x.1) :=
   generate_item_eq_line r nameT ttlT clsT tyT rdT rest co zo n m ttl ty rd comment s' hco hzo hname habs hl hm hline hfresh
 
-/-- "$GENERATE versus its expansion", the whole loop: when every index yields a record, what the loop does to the zone
-is the fold of `txn.add` over those records in index order — the same denotation `read_eq_interp` / `read_write` give
+/-- "$GENERATE versus its expansion", the whole loop, with no in-zone hypothesis: every index either yields a record
+(`e item = some _`) or has its owner outside the zone and is skipped (`e item = none`); what the loop does to the zone
+is the fold of `txn.add` over the records yielded, in index order — the same denotation `read_eq_interp` / `read_write` give
 to the file of their explicit lines. -/
 theorem generate_loop_is_fold (ttl ty : Nat) (items : List (List Nat × List Nat)) (r : PState)
-    (e : List Nat × List Nat → Entry) (nOf : List Nat × List Nat → Name) (k : Bool → PState → Trace)
+    (e : List Nat × List Nat → Option Entry) (nOf : List Nat × List Nat → Name) (k : PState → Trace)
     (h : ∀ item ∈ items, ∀ ln, genItem ttl ty item { r with lastName := ln } =
-      .ok (some (e item), { r with lastName := some (nOf item) }))
+      .ok (e item, { r with lastName := some (nOf item) }))
     (z : ZoneMap) :
     ∃ ln, interpTrace (genTrace ttl ty items r k) z =
-      (addAll r.effOrigin z (items.map e)).bind fun z' => interpTrace (k false { r with lastName := ln }) z' :=
+      (addAll r.effOrigin z (items.filterMap e)).bind fun z' => interpTrace (k { r with lastName := ln }) z' :=
   genTrace_records ttl ty items r e nOf k h z
+
+/-- a generated owner outside the zone yields no record and does not end the loop (`fix:` commit 202894b): the later
+indices still run -/
+theorem generate_out_of_zone_skipped (r : PState) (nameT rdT : List Nat) (co zo n : Name) (ttl ty : Nat)
+    (hco : r.currentOrigin = some co) (hzo : r.zoneOrigin = some zo)
+    (hname : fromText nameT (some co) = .ok n) (hout : isSubdomain n zo = false) :
+    genItem ttl ty (nameT, rdT) r = .ok (none, { r with lastName := some n }) :=
+  genItem_out_of_zone r nameT rdT co zo n ttl ty hco hzo hname hout
+
+/-- regression of the finding repaired by 202894b, end to end on the model: zone `h2.ex.`, `$ORIGIN ex.`, and
+`$GENERATE 1-3 h$ 300 A 10.0.0.$` — `h1` and `h3` are outside the zone and skipped, `h2` (the apex) is loaded — the same
+zone as the explicit lines give -/
+example :
+    zoneFromText (s2l "$ORIGIN ex.\n$GENERATE 1-3 h$ 300 A 10.0.0.$\n") (some [s2l "h2", s2l "ex", []]) false false =
+      .ok ([([s2l "h2", s2l "ex", []], [⟨1, 300, [⟨.a [10, 0, 0, 2], none⟩]⟩])], some [s2l "h2", s2l "ex", []]) := by
+  rfl
+
+example :
+    zoneFromText (s2l "$ORIGIN ex.\nh1 300 A 10.0.0.1\nh2 300 A 10.0.0.2\nh3 300 A 10.0.0.3\n")
+      (some [s2l "h2", s2l "ex", []]) false false =
+      .ok ([([s2l "h2", s2l "ex", []], [⟨1, 300, [⟨.a [10, 0, 0, 2], none⟩]⟩])], some [s2l "h2", s2l "ex", []]) := by
+  rfl
 
 /-- the indices a `$GENERATE start-stop/step` line runs over are `start, start+step, …` up to `stop` inclusive -/
 theorem generate_indices (start stop step : Nat) (lhs rhs : List Nat) (lm rm : Modify) :
@@ -686,7 +709,7 @@ from files with any run of `$ORIGIN` directives); relative owners and relative R
 `$GENERATE` templates are completed with `co`, and stored relative to `zo`. -/
 theorem generate_eq_expansion_text (f : Nat) (r : PState) (z : ZoneMap) (co zo : Name)
     (rangeT lhs ttlT clsT tyT rhs rest : List Nat) (a b st ttl ty : Nat) (lm rm : Modify)
-    (e : List Nat × List Nat → Entry) (nOf : List Nat × List Nat → Name) (ls : List GLine)
+    (e : List Nat × List Nat → Option Entry) (nOf : List Nat × List Nat → Name) (ls : List GLine)
     (hco : r.currentOrigin = some co) (hzo : r.zoneOrigin = some zo)
     (k1 : TokOK rangeT) (k2 : TokOK lhs) (k3 : TokOK ttlT) (k4 : TokOK clsT) (k5 : TokOK tyT) (k6 : TokOK rhs)
     (hrange : grangeFromText rangeT = .ok (a, b, st)) (httl : ttlOf ttlT = some ttl)
@@ -694,9 +717,9 @@ theorem generate_eq_expansion_text (f : Nat) (r : PState) (z : ZoneMap) (co zo :
     (hlm : parseModify lhs = some lm) (hrm : parseModify rhs = some rm)
     (hitems : ∀ item ∈ generateExpansion a b st lhs rhs lm rm, ∀ ln,
       genItem ttl ty item { r with tok := after 0 false (10 :: rest), lastTTL := ttl, lastTTLKnown := true, lastName := ln } =
-        .ok (some (e item), { r with tok := after 0 false (10 :: rest), lastTTL := ttl, lastTTLKnown := true,
+        .ok (e item, { r with tok := after 0 false (10 :: rest), lastTTL := ttl, lastTTLKnown := true,
                                      lastName := some (nOf item) }))
-    (hls : ls.map GLine.entry = (generateExpansion a b st lhs rhs lm rm).map e) (hne : ls ≠ [])
+    (hls : ls.map GLine.entry = (generateExpansion a b st lhs rhs lm rm).filterMap e) (hne : ls ≠ [])
     (hok : LinesOK co zo r.relativize r.gfix r.lastName none ls) (hu : UniformLines ttl ls)
     (hlast : lastN r.lastName ls = lastNameAfter nOf r.lastName (generateExpansion a b st lhs rhs lm rm)) :
     readLoop (f + 2)
@@ -717,15 +740,15 @@ example (r0 : PState) (rest : List Nat) (hrel : r0.relativize = true) (hg : r0.g
         rdText := 32 :: (s2l "10.0.0." ++ natToDec i ++ [10]), n := [s2l "h" ++ natToDec i] ++ zo,
         m := [s2l "h" ++ natToDec i], ttl := 300, ty := 1, rd := .a [10, 0, 0, i], comment := none }
     let ls := [mk 1, mk 2]
-    let e : List Nat × List Nat → Entry := fun it => ⟨[it.1], 300, 1, ⟨.a [10, 0, 0, digitsVal (it.1.drop 1) 0], none⟩⟩
+    let e : List Nat × List Nat → Option Entry := fun it => some ⟨[it.1], 300, 1, ⟨.a [10, 0, 0, digitsVal (it.1.drop 1) 0], none⟩⟩
     let nOf : List Nat × List Nat → Name := fun it => [it.1] ++ zo
     grangeFromText (s2l "1-2") = .ok (1, 2, 1) ∧ parseModify lhs = some {} ∧ parseModify rhs = some {} ∧
     generateExpansion 1 2 1 lhs rhs {} {} = [(s2l "h1", s2l "10.0.0.1"), (s2l "h2", s2l "10.0.0.2")] ∧
     (∀ item ∈ generateExpansion 1 2 1 lhs rhs {} {}, ∀ ln,
       genItem 300 1 item { r0 with tok := after 0 false (10 :: rest), lastTTL := 300, lastTTLKnown := true, lastName := ln } =
-        .ok (some (e item), { r0 with tok := after 0 false (10 :: rest), lastTTL := 300, lastTTLKnown := true,
+        .ok (e item, { r0 with tok := after 0 false (10 :: rest), lastTTL := 300, lastTTLKnown := true,
                                       lastName := some (nOf item) })) ∧
-    ls.map GLine.entry = (generateExpansion 1 2 1 lhs rhs {} {}).map e ∧
+    ls.map GLine.entry = (generateExpansion 1 2 1 lhs rhs {} {}).filterMap e ∧
     LinesOK zo zo r0.relativize r0.gfix r0.lastName none ls ∧ UniformLines 300 ls ∧
     lastN r0.lastName ls = lastNameAfter nOf r0.lastName (generateExpansion 1 2 1 lhs rhs {} {}) := by
   intro zo lhs rhs mk ls e nOf
@@ -778,7 +801,7 @@ example below, whose target is `h1.hosts`, not `h1`.) -/
 theorem generate_after_origin_directives (f : Nat) (r : PState) (z : ZoneMap) (co zo : Name)
     (ds : List (List Nat × Name))
     (rangeT lhs ttlT clsT tyT rhs rest : List Nat) (a b st ttl ty : Nat) (lm rm : Modify)
-    (e : List Nat × List Nat → Entry) (nOf : List Nat × List Nat → Name) (ls : List GLine)
+    (e : List Nat × List Nat → Option Entry) (nOf : List Nat × List Nat → Name) (ls : List GLine)
     (hzo : r.zoneOrigin = some zo) (hds : OriginsOK r.currentOrigin ds) (hco : lastOrigin r.currentOrigin ds = some co)
     (k1 : TokOK rangeT) (k2 : TokOK lhs) (k3 : TokOK ttlT) (k4 : TokOK clsT) (k5 : TokOK tyT) (k6 : TokOK rhs)
     (hrange : grangeFromText rangeT = .ok (a, b, st)) (httl : ttlOf ttlT = some ttl)
@@ -787,9 +810,9 @@ theorem generate_after_origin_directives (f : Nat) (r : PState) (z : ZoneMap) (c
     (hitems : ∀ item ∈ generateExpansion a b st lhs rhs lm rm, ∀ ln,
       genItem ttl ty item { r with tok := after 0 false (10 :: rest), currentOrigin := some co, lastTTL := ttl,
                                    lastTTLKnown := true, lastName := ln } =
-        .ok (some (e item), { r with tok := after 0 false (10 :: rest), currentOrigin := some co, lastTTL := ttl,
+        .ok (e item, { r with tok := after 0 false (10 :: rest), currentOrigin := some co, lastTTL := ttl,
                                      lastTTLKnown := true, lastName := some (nOf item) }))
-    (hls : ls.map GLine.entry = (generateExpansion a b st lhs rhs lm rm).map e) (hne : ls ≠ [])
+    (hls : ls.map GLine.entry = (generateExpansion a b st lhs rhs lm rm).filterMap e) (hne : ls ≠ [])
     (hok : LinesOK co zo r.relativize r.gfix r.lastName none ls) (hu : UniformLines ttl ls)
     (hlast : lastN r.lastName ls = lastNameAfter nOf r.lastName (generateExpansion a b st lhs rhs lm rm)) :
     readLoop ((f + 2) + ds.length)
@@ -838,15 +861,15 @@ example (r0 : PState) (rest : List Nat) (hrel : r0.relativize = true) (hg : r0.g
         m := [s2l "a" ++ natToDec i, hosts], ttl := 300, ty := 5, rd := .name1 [s2l "h" ++ natToDec i, hosts],
         comment := none }
     let ls := [mk 1, mk 2]
-    let e : List Nat × List Nat → Entry := fun it => ⟨[it.1, hosts], 300, 5, ⟨.name1 [it.2, hosts], none⟩⟩
+    let e : List Nat × List Nat → Option Entry := fun it => some ⟨[it.1, hosts], 300, 5, ⟨.name1 [it.2, hosts], none⟩⟩
     let nOf : List Nat × List Nat → Name := fun it => [it.1] ++ co
     fromText (s2l "hosts.ex.") none = .ok co ∧
     generateExpansion 1 2 1 lhs rhs {} {} = [(s2l "a1", s2l "h1"), (s2l "a2", s2l "h2")] ∧
     (∀ item ∈ generateExpansion 1 2 1 lhs rhs {} {}, ∀ ln,
       genItem 300 5 item { r0 with tok := after 0 false (10 :: rest), lastTTL := 300, lastTTLKnown := true, lastName := ln } =
-        .ok (some (e item), { r0 with tok := after 0 false (10 :: rest), lastTTL := 300, lastTTLKnown := true,
+        .ok (e item, { r0 with tok := after 0 false (10 :: rest), lastTTL := 300, lastTTLKnown := true,
                                       lastName := some (nOf item) })) ∧
-    ls.map GLine.entry = (generateExpansion 1 2 1 lhs rhs {} {}).map e ∧
+    ls.map GLine.entry = (generateExpansion 1 2 1 lhs rhs {} {}).filterMap e ∧
     LinesOK co zo r0.relativize r0.gfix r0.lastName none ls ∧ UniformLines 300 ls ∧
     lastN r0.lastName ls = lastNameAfter nOf r0.lastName (generateExpansion 1 2 1 lhs rhs {} {}) := by
   intro zo hosts co lhs rhs mk ls e nOf
@@ -942,7 +965,7 @@ stated TTL) — and to the same parser state.  Current origin `co` and zone orig
 `generate_eq_expansion_text`. -/
 theorem generate_eq_expansion_inherited_ttl (f : Nat) (r : PState) (z : ZoneMap) (co zo : Name)
     (rangeT lhs tyT rhs rest : List Nat) (a b st ttl ty : Nat) (lm rm : Modify)
-    (e : List Nat × List Nat → Entry) (nOf : List Nat × List Nat → Name) (ls : List GLine)
+    (e : List Nat × List Nat → Option Entry) (nOf : List Nat × List Nat → Name) (ls : List GLine)
     (hco : r.currentOrigin = some co) (hzo : r.zoneOrigin = some zo)
     (k1 : TokOK rangeT) (k2 : TokOK lhs) (k5 : TokOK tyT) (k6 : TokOK rhs)
     (hrange : grangeFromText rangeT = .ok (a, b, st)) (hnt : ttlOf tyT = none) (hnc : classFromText tyT = none)
@@ -950,8 +973,8 @@ theorem generate_eq_expansion_inherited_ttl (f : Nat) (r : PState) (z : ZoneMap)
     (hinh : r.inheritedTTL = some ttl)
     (hitems : ∀ item ∈ generateExpansion a b st lhs rhs lm rm, ∀ ln,
       genItem ttl ty item { r with tok := after 0 false (10 :: rest), lastName := ln } =
-        .ok (some (e item), { r with tok := after 0 false (10 :: rest), lastName := some (nOf item) }))
-    (hls : ls.map GLine.entry = (generateExpansion a b st lhs rhs lm rm).map e)
+        .ok (e item, { r with tok := after 0 false (10 :: rest), lastName := some (nOf item) }))
+    (hls : ls.map GLine.entry = (generateExpansion a b st lhs rhs lm rm).filterMap e)
     (hok : LinesOK co zo r.relativize r.gfix r.lastName (some ttl) ls) (hu : InheritLines ttl ls)
     (hlast : lastN r.lastName ls = lastNameAfter nOf r.lastName (generateExpansion a b st lhs rhs lm rm)) :
     readLoop (f + 2)
@@ -967,7 +990,7 @@ theorem generate_eq_expansion_inherited_ttl (f : Nat) (r : PState) (z : ZoneMap)
 /-- the same with the class written: `$GENERATE range lhs IN type rhs⏎` -/
 theorem generate_eq_expansion_inherited_ttl_class (f : Nat) (r : PState) (z : ZoneMap) (co zo : Name)
     (rangeT lhs clsT tyT rhs rest : List Nat) (a b st ttl ty : Nat) (lm rm : Modify)
-    (e : List Nat × List Nat → Entry) (nOf : List Nat × List Nat → Name) (ls : List GLine)
+    (e : List Nat × List Nat → Option Entry) (nOf : List Nat × List Nat → Name) (ls : List GLine)
     (hco : r.currentOrigin = some co) (hzo : r.zoneOrigin = some zo)
     (k1 : TokOK rangeT) (k2 : TokOK lhs) (k4 : TokOK clsT) (k5 : TokOK tyT) (k6 : TokOK rhs)
     (hrange : grangeFromText rangeT = .ok (a, b, st)) (hnt : ttlOf clsT = none) (hcls : classFromText clsT = some 1)
@@ -975,8 +998,8 @@ theorem generate_eq_expansion_inherited_ttl_class (f : Nat) (r : PState) (z : Zo
     (hinh : r.inheritedTTL = some ttl)
     (hitems : ∀ item ∈ generateExpansion a b st lhs rhs lm rm, ∀ ln,
       genItem ttl ty item { r with tok := after 0 false (10 :: rest), lastName := ln } =
-        .ok (some (e item), { r with tok := after 0 false (10 :: rest), lastName := some (nOf item) }))
-    (hls : ls.map GLine.entry = (generateExpansion a b st lhs rhs lm rm).map e)
+        .ok (e item, { r with tok := after 0 false (10 :: rest), lastName := some (nOf item) }))
+    (hls : ls.map GLine.entry = (generateExpansion a b st lhs rhs lm rm).filterMap e)
     (hok : LinesOK co zo r.relativize r.gfix r.lastName (some ttl) ls) (hu : InheritLines ttl ls)
     (hlast : lastN r.lastName ls = lastNameAfter nOf r.lastName (generateExpansion a b st lhs rhs lm rm)) :
     readLoop (f + 2)
@@ -1003,14 +1026,14 @@ example (r0 : PState) (rest : List Nat) (hrel : r0.relativize = true) (hg : r0.g
         rdText := 32 :: (s2l "10.0.0." ++ natToDec i ++ [10]), n := [s2l "h" ++ natToDec i] ++ zo,
         m := [s2l "h" ++ natToDec i], ttl := 3600, ty := 1, rd := .a [10, 0, 0, i], comment := none }
     let ls := [mk 1, mk 2]
-    let e : List Nat × List Nat → Entry := fun it => ⟨[it.1], 3600, 1, ⟨.a [10, 0, 0, digitsVal (it.1.drop 1) 0], none⟩⟩
+    let e : List Nat × List Nat → Option Entry := fun it => some ⟨[it.1], 3600, 1, ⟨.a [10, 0, 0, digitsVal (it.1.drop 1) 0], none⟩⟩
     let nOf : List Nat × List Nat → Name := fun it => [it.1] ++ zo
     r0.inheritedTTL = some 3600 ∧ ttlOf (s2l "A") = none ∧ classFromText (s2l "A") = none ∧
     generateExpansion 1 2 1 lhs rhs {} {} = [(s2l "h1", s2l "10.0.0.1"), (s2l "h2", s2l "10.0.0.2")] ∧
     (∀ item ∈ generateExpansion 1 2 1 lhs rhs {} {}, ∀ ln,
       genItem 3600 1 item { r0 with tok := after 0 false (10 :: rest), lastName := ln } =
-        .ok (some (e item), { r0 with tok := after 0 false (10 :: rest), lastName := some (nOf item) })) ∧
-    ls.map GLine.entry = (generateExpansion 1 2 1 lhs rhs {} {}).map e ∧
+        .ok (e item, { r0 with tok := after 0 false (10 :: rest), lastName := some (nOf item) })) ∧
+    ls.map GLine.entry = (generateExpansion 1 2 1 lhs rhs {} {}).filterMap e ∧
     LinesOK zo zo r0.relativize r0.gfix r0.lastName (some 3600) ls ∧ InheritLines 3600 ls ∧
     lastN r0.lastName ls = lastNameAfter nOf r0.lastName (generateExpansion 1 2 1 lhs rhs {} {}) := by
   intro zo lhs rhs mk ls e nOf
